@@ -67,6 +67,7 @@ func checkC11(c *Ctx, r *Result, tier string) {
 	// ---- R11a / R11b -------------------------------------------------------------------------
 	acts := actionClosures(c)
 	r.Floor("R11a-action-closures", len(acts), 1)
+	c11BindBeforeParent(c, r, acts)
 	for _, act := range acts {
 		for _, fn := range withNested(act) {
 			key := c.FuncKey(fn)
@@ -299,4 +300,73 @@ func mustHoldAny(lf *LockFlow, in ssa.Instruction) bool {
 		}
 	}
 	return false
+}
+
+// ---- R11f: the invocation's own names are bound on a scope that has no parent yet ----------------
+
+// Scope.SetValue assigns to the nearest scope of the chain that already holds the name. The sink
+// action binds `event` with SetValue; that defines the name in the invocation's own scope only
+// while that scope has no parent. Created with a parent (NewScopeWithParent / NewChild) or
+// parented before the binding, a global called `event` in the declaring scope is overwritten
+// instead — shared by all invocations.
+func c11BindBeforeParent(c *Ctx, r *Result, acts []*ssa.Function) {
+	scopeIface := c.Interface("parser", "Scope")
+	if scopeIface == nil {
+		return
+	}
+	n := 0
+	for _, act := range acts {
+		for _, fn := range withNested(act) {
+			key := c.FuncKey(fn)
+			ord := newOrdinals()
+			var parents []ssa.CallInstruction
+			allInstrs(fn, func(in ssa.Instruction) {
+				if ci, ok := in.(ssa.CallInstruction); ok && strings.HasSuffix(callName(in), "scope.SetParentOfScope") {
+					parents = append(parents, ci)
+				}
+			})
+			allInstrs(fn, func(in ssa.Instruction) {
+				ci, ok := in.(ssa.CallInstruction)
+				if !ok || !ci.Common().IsInvoke() || ci.Common().Method.Name() != "SetValue" || !types.Identical(ci.Common().Value.Type().Underlying(), scopeIface) {
+					return
+				}
+				n++
+				name := accessPath(ci.Common().Args[0])
+				if s, ok := constString(ci.Common().Args[0]); ok {
+					name = s
+				}
+				site := ord.key(key, "own-binding", name)
+				pos := c.Pos(c.InstrPos(in))
+				sv := unspill(ci.Common().Value)
+				why := ""
+				if call, ok := sv.(*ssa.Call); ok {
+					f := call.Call.StaticCallee()
+					switch {
+					case f != nil && c.PkgOf(f) == "scope" && f.Name() == "NewScope":
+						for _, pc := range parents {
+							if unspill(pc.Common().Args[0]) == sv && canReach(pc, in) {
+								why = "the scope was parented (" + c.Pos(c.InstrPos(pc)) + ") before the binding"
+							}
+						}
+					case f != nil && c.PkgOf(f) == "scope":
+						why = "the scope is created with a parent (" + f.Name() + ")"
+					case call.Call.IsInvoke() && call.Call.Method.Name() == "NewChild":
+						why = "the scope is a child scope (NewChild)"
+					default:
+						why = "the scope is " + accessPath(sv) + ", not a parent-less scope created in this invocation"
+					}
+				} else {
+					why = "the scope is " + accessPath(sv) + ", not a parent-less scope created in this invocation"
+				}
+				if why != "" {
+					r.Instance("R11f", site, pos, "finding", why, true)
+					r.Report(Finding{Rule: "R11f", Site: site, Pos: pos,
+						Msg: fmt.Sprintf("%s (a rule action) binds %q with SetValue although %s: SetValue assigns to the nearest scope that already holds the name, so a variable of that name in the declaring scope is overwritten — every overlapping invocation then reads and writes the same `%s`", key, name, why, name)})
+					return
+				}
+				r.Instance("R11f", site, pos, "ok", "bound on a parent-less scope created in this invocation, before it is parented", true)
+			})
+		}
+	}
+	r.Floor("R11f", n, 1)
 }
